@@ -196,7 +196,22 @@ func (c *c13Call) parkedState(d time.Duration) string {
 		default:
 		}
 		if g := rt.FindG(rt.Goroutines(), c.gid); g != nil && g.Parked() && g.State != "sleep" {
-			return g.State
+			// a goroutine briefly parks on internal mutexes on its way
+			// (semacquire, sync.Mutex.Lock): only a state seen again
+			// after a pause counts as where it came to rest
+			st := g.State
+			time.Sleep(2 * time.Millisecond)
+			if g2 := rt.FindG(rt.Goroutines(), c.gid); g2 != nil && g2.State == st {
+				if st == "semacquire" || st == "sync.Mutex.Lock" {
+					// still contended: keep waiting unless it stays so
+					time.Sleep(50 * time.Millisecond)
+					if g3 := rt.FindG(rt.Goroutines(), c.gid); g3 == nil || g3.State != st {
+						continue
+					}
+				}
+				return st
+			}
+			continue
 		}
 		time.Sleep(200 * time.Microsecond)
 	}
@@ -513,6 +528,35 @@ func c13Run(c *Ctx, cs c13Case) {
 		if !errors.Is(err, context.Canceled) {
 			fail("error-does-not-wrap-context-error", fmt.Sprintf("SendPackage returned %v", err))
 		}
+	case "flush-cancelled-exact-multiple", "flush-conn-cancelled-exact-multiple":
+		// a message that fills its packets exactly is queued with a live
+		// context (all packets go out as full packets without EOM); the
+		// flush then runs with a cancelled context and must write nothing
+		body := k.conn.PacketBodySize()
+		if err := e.ch.QueuePackage(context.Background(), &tds.LanguagePackage{Cmd: strings.Repeat("s", 2*body-6)}); err != nil {
+			r.Inconclusive("QueuePackage with a live context failed: %v", err)
+			return
+		}
+		ctx, cancel := context.WithCancel(context.Background())
+		defer cancel()
+		if cs.Action == "flush-cancelled-exact-multiple" {
+			cancel()
+		} else {
+			e.parent()
+		}
+		before := k.tr.WriteCalls()
+		var err error
+		call := c13Go(func() { err = e.ch.SendRemainingPackets(ctx) })
+		if !bounded(call, "SendRemainingPackets with a cancelled context", 10*time.Second) {
+			return
+		}
+		if n := k.tr.WriteCalls() - before; n != 0 {
+			fail("cancelled-send-wrote-bytes", fmt.Sprintf("SendRemainingPackets with a cancelled context wrote %d packet(s) (the end-of-message terminator of a message that filled its packets exactly)", n))
+			return
+		}
+		if !errors.Is(err, context.Canceled) {
+			fail("error-does-not-wrap-context-error", fmt.Sprintf("SendRemainingPackets returned %v", err))
+		}
 	case "close", "close-twice":
 		var err error
 		call := c13Go(func() { err = e.ch.Close() })
@@ -733,7 +777,7 @@ func runC13(c *Ctx) {
 	if !quick {
 		fills = []int{0, 1, 2, 3, 4, 5, 6}
 	}
-	simple := []string{"next-cancelled-before", "until-cancelled-before", "until-drain-cancelled-before", "until-drain-cancel-during", "next-cancel-during", "next-conn-cancel-during", "next-conn-cancelled-before", "send-cancelled", "send-conn-cancelled", "close", "close-twice", "conn-close", "close-vs-blocked-receive", "close-vs-reader-in-read"}
+	simple := []string{"next-cancelled-before", "until-cancelled-before", "until-drain-cancelled-before", "until-drain-cancel-during", "next-cancel-during", "next-conn-cancel-during", "next-conn-cancelled-before", "send-cancelled", "send-conn-cancelled", "flush-cancelled-exact-multiple", "flush-conn-cancelled-exact-multiple", "close", "close-twice", "conn-close", "close-vs-blocked-receive", "close-vs-reader-in-read"}
 	for _, f := range fills {
 		for _, logical := range []bool{false, true} {
 			for _, tf := range []bool{false, true} {
